@@ -1,10 +1,13 @@
 import TarsModel.Proofs.SchemaSpec
 
 /-!
-# Targets: what a fresh (zero) struct looks like to the decoder, and what `ResetDefault` makes of it
+# Targets: what the decoder needs of the value it decodes into, and what `ResetDefault` makes of it
 
-`Ready env ty o`: `o` is the Go zero value of `ty`, except that struct members carrying an explicit
-IDL default may hold anything (they are overwritten by `ResetDefault` before any read).
+`Ready env ty o`, for a non-struct type: `o` is the Go zero value of `ty` (what a vector/map
+element or a freshly reset member holds).  For a struct type it only says that `o` has the
+*shape* of the struct: one member value per declared member, and every member of struct type
+(without explicit default) is again such a value — all other members may hold anything, because
+`ResetDefault` (since the fix "ResetDefault resets every member") overwrites them before any read.
 `OldOK`: the value a member holds when its read is executed (after `ResetDefault`).
 -/
 namespace Tars
@@ -37,9 +40,17 @@ def ReadyMembers (env : Env) : List Field → List Val → Prop
   | f :: fs, o :: os =>
     (match f.dflt with
      | some _ => True
-     | none => Ready env f.ty o) ∧ ReadyMembers env fs os
+     | none =>
+       match f.ty with
+       | .struct _ => Ready env f.ty o
+       | _ => True) ∧ ReadyMembers env fs os
   | _, _ => False
 end
+
+/-- an admissible decode target for struct `S`: any struct value with one member per declared
+    member whose struct-typed members are again admissible targets; every other member is
+    arbitrary (stale data of a reused target, even of the wrong Go type in the model) -/
+abbrev TargetOK (env : Env) (S : String) (old : Val) : Prop := Ready env (.struct S) old
 
 /-- the value a member of type `ty` with default `dflt` holds when it is read -/
 def OldOK (env : Env) (ty : Ty) (dflt : Option Val) (o : Val) : Prop :=
@@ -65,99 +76,11 @@ theorem OldOKs.ready {env : Env} : ∀ {fs : List Field} {os : List Val},
     unfold OldOK at h1
     split
     · trivial
-    · rename_i hd; rw [hd] at h1; exact h1
-
-/-! ## `ResetDefault` -/
-
-theorem resetDefault_zero (env : Env) (fs : List Field) (os : List Val) :
-    resetDefault env 0 fs os = os := by
-  rw [resetDefault]
-
-theorem resetDefault_cons (env : Env) (fuel : Nat) (f : Field) (fs : List Field) (o : Val)
-    (os : List Val) :
-    resetDefault env (fuel+1) (f :: fs) (o :: os) =
-      (match f.dflt with
-       | some d => d
-       | none =>
-         match f.ty, o with
-         | .struct name, .struct inner =>
-           match env.find name with
-           | some ifs => Val.struct (resetDefault env fuel ifs inner)
-           | none => o
-         | _, _ => o) :: resetDefault env (fuel+1) fs os := by
-  conv => lhs; unfold resetDefault
-  rfl
-
-/-- `ResetDefault` keeps a target ready, whatever the fuel -/
-theorem resetDefault_ready (env : Env) : ∀ (fuel : Nat) (fs : List Field) (os : List Val),
-    ReadyMembers env fs os → ReadyMembers env fs (resetDefault env fuel fs os)
-  | 0, fs, os, h => by rw [resetDefault_zero]; exact h
-  | fuel+1, [], [], _ => by simp [resetDefault, ReadyMembers]
-  | fuel+1, [], _ :: _, h => by simp [ReadyMembers] at h
-  | fuel+1, _ :: _, [], h => by simp [ReadyMembers] at h
-  | fuel+1, f :: fs, o :: os, h => by
-    simp only [ReadyMembers] at h
-    have ih := resetDefault_ready env (fuel+1) fs os h.2
-    rw [resetDefault_cons]
-    simp only [ReadyMembers]
-    refine ⟨?_, ih⟩
-    have h1 := h.1
-    split
-    · trivial
     · rename_i hd
       rw [hd] at h1
-      simp only at h1 ⊢
       split
-      · rename_i name inner hty
-        rw [hty] at h1 ⊢
-        split
-        · rename_i ifs hfind
-          simp only [Ready, hfind] at h1 ⊢
-          exact resetDefault_ready env fuel ifs inner h1
-        · exact h1
       · exact h1
-termination_by fuel fs => (fuel, fs.length)
-
-/-- after `ResetDefault` (with at least one unit of fuel) every member with an explicit default
-    holds it and every other member is ready -/
-theorem resetDefault_oldOK (env : Env) (fuel : Nat) : ∀ (fs : List Field) (os : List Val),
-    ReadyMembers env fs os → OldOKs env fs (resetDefault env (fuel+1) fs os)
-  | [], [], _ => by simp [resetDefault, OldOKs]
-  | [], _ :: _, h => by simp [ReadyMembers] at h
-  | _ :: _, [], h => by simp [ReadyMembers] at h
-  | f :: fs, o :: os, h => by
-    simp only [ReadyMembers] at h
-    have ih := resetDefault_oldOK env fuel fs os h.2
-    rw [resetDefault_cons]
-    simp only [OldOKs]
-    refine ⟨?_, ih⟩
-    have h1 := h.1
-    unfold OldOK
-    split
-    · rename_i d hd; simp
-    · rename_i hd
-      rw [hd] at h1
-      simp only at h1 ⊢
-      split
-      · rename_i name inner hty
-        rw [hty] at h1 ⊢
-        split
-        · rename_i ifs hfind
-          simp only [Ready, hfind] at h1 ⊢
-          exact resetDefault_ready env fuel ifs inner h1
-        · exact h1
-      · exact h1
-
-/-- the two `ResetDefault` calls of `ReadBlock` + `ReadFrom` -/
-theorem resetDefault_twice_oldOK (env : Env) (fuel : Nat) (fs : List Field) (os : List Val)
-    (h : ReadyMembers env fs os) :
-    OldOKs env fs (resetDefault env (fuel+1) fs (resetDefault env (fuel+1) fs os)) :=
-  resetDefault_oldOK env fuel fs _ (resetDefault_oldOK env fuel fs os h).ready
-
-end Tars
-
-namespace Tars
-open Consts
+      · trivial
 
 /-! ## zero values are ready -/
 
@@ -185,7 +108,10 @@ theorem readyMembers_map_zero (env : Env) (g : Ty → Val) :
     refine ⟨?_, readyMembers_map_zero env g gs (fun f' hf' => h f' (by simp [hf']))⟩
     split
     · trivial
-    · rename_i hd; exact h f (by simp) hd
+    · rename_i hd
+      split
+      · exact h f (by simp) hd
+      · trivial
 
 /-- the Go zero value of a supported type is ready, provided the fuel covers the struct rank -/
 theorem zeroVal_ready {env : Env} {rk : String → Nat} (hE : EnvWF env rk) :
@@ -227,5 +153,105 @@ theorem zeroVal_ready {env : Env} {rk : String → Nat} (hE : EnvWF env rk) :
 theorem zeroOf_ready {env : Env} {rk : String → Nat} (hE : EnvWF env rk) (ty : Ty)
     (h : TyOK env rk (env.length + 1) ty) : Ready env ty (zeroOf env ty) :=
   zeroVal_ready hE _ ty h
+
+
+/-! ## `ResetDefault` -/
+
+theorem resetDefault_zero (env : Env) (fs : List Field) (os : List Val) :
+    resetDefault env 0 fs os = os := by
+  rw [resetDefault]
+
+/-- the recursive `st.X.ResetDefault()` of a struct-typed member -/
+def resetInner (env : Env) (fuel : Nat) (ty : Ty) (o : Val) : Val :=
+  match ty, o with
+  | .struct name, .struct inner =>
+    match env.find name with
+    | some ifs => Val.struct (resetDefault env fuel ifs inner)
+    | none => o
+  | _, _ => o
+
+theorem resetDefault_cons (env : Env) (fuel : Nat) (f : Field) (fs : List Field) (o : Val)
+    (os : List Val) :
+    resetDefault env (fuel+1) (f :: fs) (o :: os) =
+      (match f.dflt with
+       | some d => d
+       | none =>
+         match f.ty with
+         | .struct _ => resetInner env fuel f.ty o
+         | t => zeroOf env t) :: resetDefault env (fuel+1) fs os := by
+  conv => lhs; unfold resetDefault
+  rfl
+
+/-- the nested `ResetDefault` of a struct-typed member keeps it an admissible target -/
+theorem resetDefault_inner_ready (env : Env) (fuel : Nat)
+    (ih : ∀ (fs : List Field) (os : List Val), ReadyMembers env fs os →
+      ReadyMembers env fs (resetDefault env fuel fs os))
+    (nm : String) (o : Val) (h : Ready env (.struct nm) o) :
+    Ready env (.struct nm) (resetInner env fuel (.struct nm) o) := by
+  unfold resetInner
+  cases o with
+  | struct inner =>
+    simp only
+    cases hfind : env.find nm with
+    | none => simpa [hfind] using h
+    | some ifs =>
+      simp only [Ready, hfind] at h ⊢
+      exact ih ifs inner h
+  | _ => exact h
+
+/-- `ResetDefault` keeps a target admissible, whatever the fuel -/
+theorem resetDefault_ready (env : Env) : ∀ (fuel : Nat) (fs : List Field) (os : List Val),
+    ReadyMembers env fs os → ReadyMembers env fs (resetDefault env fuel fs os)
+  | 0, fs, os, h => by rw [resetDefault_zero]; exact h
+  | fuel+1, [], [], _ => by simp [resetDefault, ReadyMembers]
+  | fuel+1, [], _ :: _, h => by simp [ReadyMembers] at h
+  | fuel+1, _ :: _, [], h => by simp [ReadyMembers] at h
+  | fuel+1, f :: fs, o :: os, h => by
+    obtain ⟨tag, req, ty, dflt⟩ := f
+    simp only [ReadyMembers] at h
+    have ih := resetDefault_ready env (fuel+1) fs os h.2
+    rw [resetDefault_cons]
+    simp only [ReadyMembers]
+    refine ⟨?_, ih⟩
+    have h1 := h.1
+    cases dflt with
+    | some d => trivial
+    | none =>
+      cases ty <;> try trivial
+      exact resetDefault_inner_ready env fuel (resetDefault_ready env fuel) _ o h1
+termination_by fuel fs => (fuel, fs.length)
+
+/-- after `ResetDefault` (with at least one unit of fuel) every member with an explicit default
+    holds it, every other non-struct member holds its Go zero value, and a struct-typed member
+    is still an admissible target -/
+theorem resetDefault_oldOK {env : Env} {rk : String → Nat} (hE : EnvWF env rk) (fuel : Nat) :
+    ∀ (fs : List Field) (os : List Val), (∀ f ∈ fs, TyOK env rk (env.length + 1) f.ty) →
+    ReadyMembers env fs os → OldOKs env fs (resetDefault env (fuel+1) fs os)
+  | [], [], _, _ => by simp [resetDefault, OldOKs]
+  | [], _ :: _, _, h => by simp [ReadyMembers] at h
+  | _ :: _, [], _, h => by simp [ReadyMembers] at h
+  | f :: fs, o :: os, hty, h => by
+    simp only [ReadyMembers] at h
+    have ih := resetDefault_oldOK hE fuel fs os (fun g hg => hty g (by simp [hg])) h.2
+    have htf := hty f (by simp)
+    obtain ⟨tag, req, ty, dflt⟩ := f
+    rw [resetDefault_cons]
+    simp only [OldOKs]
+    refine ⟨?_, ih⟩
+    have h1 := h.1
+    unfold OldOK
+    cases dflt with
+    | some d => rfl
+    | none =>
+      simp only at htf
+      cases ty <;> try exact zeroOf_ready hE _ htf
+      exact resetDefault_inner_ready env fuel (resetDefault_ready env fuel) _ o h1
+
+/-- the two `ResetDefault` calls of `ReadBlock` + `ReadFrom` -/
+theorem resetDefault_twice_oldOK {env : Env} {rk : String → Nat} (hE : EnvWF env rk) (fuel : Nat)
+    (fs : List Field) (os : List Val) (hty : ∀ f ∈ fs, TyOK env rk (env.length + 1) f.ty)
+    (h : ReadyMembers env fs os) :
+    OldOKs env fs (resetDefault env (fuel+1) fs (resetDefault env (fuel+1) fs os)) :=
+  resetDefault_oldOK hE fuel fs _ hty (resetDefault_oldOK hE fuel fs os hty h).ready
 
 end Tars
